@@ -573,8 +573,61 @@ func doKill() string {
 		return cal != nil && reachesKill(cal)
 	}
 	found, putsBack, leaves := 0, false, false
+	writesFresh := true
 	for _, fd := range cands {
 		defs := localDefs(fd)
+		// the first kill call of this function (if any): a whole-roster write at or after it must be computed
+		// from the roster as it is then (its argument reads the roster), never from a local filled before
+		firstKill := token.NoPos
+		ast.Inspect(fd.Body, func(n ast.Node) bool {
+			if c, ok := n.(*ast.CallExpr); ok && isKillCall(c) && (firstKill == token.NoPos || c.Pos() < firstKill) {
+				firstKill = c.Pos()
+			}
+			return true
+		})
+		if firstKill != token.NoPos {
+			loopStart := firstKill
+			ast.Inspect(fd.Body, func(n ast.Node) bool {
+				switch v := n.(type) {
+				case *ast.RangeStmt:
+					if v.Pos() <= firstKill && firstKill <= v.End() && v.Pos() < loopStart {
+						loopStart = v.Pos()
+					}
+				case *ast.ForStmt:
+					if v.Pos() <= firstKill && firstKill <= v.End() && v.Pos() < loopStart {
+						loopStart = v.Pos()
+					}
+				}
+				return true
+			})
+			ast.Inspect(fd.Body, func(n ast.Node) bool {
+				c, ok := n.(*ast.CallExpr)
+				if !ok || c.Pos() < loopStart {
+					return true
+				}
+				name, isRoster := onRoster(c)
+				if !isRoster || len(c.Args) != 1 {
+					return true
+				}
+				m := pkgMethod(p, "roster", name)
+				if m == nil || m.Type.Params == nil || len(m.Type.Params.List) != 1 || exprString(m.Type.Params.List[0].Type) != "Tasks" {
+					return true
+				}
+				readsNow := false
+				ast.Inspect(c.Args[0], func(a ast.Node) bool {
+					if ac, ok := a.(*ast.CallExpr); ok {
+						if _, r := onRoster(ac); r {
+							readsNow = true
+						}
+					}
+					return true
+				})
+				if !readsNow {
+					writesFresh = false
+				}
+				return true
+			})
+		}
 		ast.Inspect(fd.Body, func(n ast.Node) bool {
 			var body *ast.BlockStmt
 			switch v := n.(type) {
@@ -655,6 +708,8 @@ func doKill() string {
 	b.WriteString("(* regenerated on every run by harness/cmd/translate (dokill) from core/task (the kill routine of KillTasks / Cleanup):\n   a task whose KILL call failed is put back into the roster; the loop then carries on with the other tasks *)\n")
 	fmt.Fprintf(&b, "Definition dokill_puts_back : bool := %v.\n", putsBack)
 	fmt.Fprintf(&b, "Definition dokill_carries_on : bool := %v.\n", !leaves)
+	b.WriteString("(* from its first KILL call on, the kill routine never stores a whole roster it did not read at that moment\n   (a list kept in a local across the KILL calls would erase what other requests wrote meanwhile) *)\n")
+	fmt.Fprintf(&b, "Definition dokill_writes_fresh : bool := %v.\n", writesFresh)
 	return b.String()
 }
 
